@@ -30,6 +30,8 @@ func boundParams() {
 	boundL = vrt.ParamOr("L", boundL)
 	boundM = vrt.ParamOr("M", boundM)
 	boundD = vrt.ParamOr("D", boundD)
+	forceS = vrt.ParamOr("slen", -1)
+	forceL = vrt.ParamOr("llen", -1)
 }
 
 func codecCore(ops *typeOps) {
@@ -120,6 +122,10 @@ func codecCore(ops *typeOps) {
 	got := ops.ToRef(pw)
 	vrt.Check(refEqualStruct(ops.St, want, got), "C01 round trip value equal up to documented normalisations")
 	vrt.Check(vrt.BytesEq(buf, append(append([]byte{}, ref...), snap[n:]...)), "C16 decode leaves the input untouched")
+	if derr == nil {
+		wk := &walker{buf: buf}
+		ops.Walk(pw, wk)
+	}
 	vrt.Freeze("buf", false)
 	vrt.Observe("reenc", refEncodeStruct(ops.St, got, nil))
 	vrt.Phase("")
@@ -288,6 +294,30 @@ func pick(name string, n int) int {
 	return vrt.Choice(name, n)
 }
 
+// forceS / forceL >= 0 fix every string(binary) / list length (threshold shapes: concrete length, symbolic contents).
+var forceS, forceL = -1, -1
+
+func strLen(name string) int {
+	if forceS >= 0 {
+		return forceS
+	}
+	return pick(name+"#", boundS+1)
+}
+
+func binLen(name string) int {
+	if forceS >= 0 {
+		return forceS + 1
+	}
+	return pick(name+"#", boundS+2)
+}
+
+func listLen(name string) int {
+	if forceL >= 0 {
+		return forceL + 1
+	}
+	return pick(name+"#", boundL+2)
+}
+
 func withBounds(sb, lb, mb int, f func()) {
 	s0, l0, m0 := boundS, boundL, boundM
 	boundS, boundL, boundM = sb, lb, mb
@@ -397,5 +427,47 @@ func hopCore(w, t *typeOps) {
 		vrt.Check(refEqualStruct(w.St, want, back), "C11 nothing is lost through decode and re-encode by an older schema")
 	}
 	vrt.Observe("out", out)
+	vrt.Reach("end")
+}
+
+// dec2Core (C06 histories, C07): decode message 1, overwrite the input, decode message 2 with the same
+// pooled decoder state, then message 1's object must be unchanged and all memory of both objects disjoint.
+func dec2Core(a, b *typeOps) {
+	boundParams()
+	vrt.SetOwner("user")
+	p1 := a.NewZero()
+	a.Fill(p1, "m1")
+	r1 := a.ToRef(p1)
+	msg1 := refEncodeStruct(a.St, r1, nil)
+	p2 := b.NewZero()
+	b.Fill(p2, "m2")
+	r2 := b.ToRef(p2)
+	msg2 := refEncodeStruct(b.St, r2, nil)
+	vrt.SetOwner("buf")
+	buf1 := append([]byte{}, msg1...)
+	buf2 := append([]byte{}, msg2...)
+	vrt.SetOwner("user")
+	w1 := a.New()
+	want1 := refRoundTripStruct(a.St, r1, a.ToRef(w1))
+	w2 := b.New()
+	want2 := refRoundTripStruct(b.St, r2, b.ToRef(w2))
+	vrt.SetOwner("dec")
+	vrt.Phase("decode")
+	n1, e1 := DecodeObject(buf1, w1)
+	vrt.Check(e1 == nil && n1 == len(msg1), "C01 decode of message 1 succeeds")
+	// the caller reuses / overwrites the input buffer
+	vrt.SetOwner("buf")
+	ow := vrt.Bytes("overwrite", len(buf1))
+	copy(buf1, ow)
+	vrt.SetOwner("dec")
+	n2, e2 := DecodeObject(buf2, w2)
+	vrt.Phase("")
+	vrt.Check(e2 == nil && n2 == len(msg2), "C07 decode of message 2 after message 1 succeeds")
+	vrt.Check(refEqualStruct(a.St, want1, a.ToRef(w1)), "C06 decoded value unchanged by buffer overwrite and a later decode")
+	vrt.Check(refEqualStruct(b.St, want2, b.ToRef(w2)), "C07 second decode result independent of the first")
+	wk := &walker{buf: buf1}
+	a.Walk(w1, wk)
+	wk.buf = buf2
+	b.Walk(w2, wk)
 	vrt.Reach("end")
 }
